@@ -119,6 +119,8 @@ class Lab:
 
 
 def classify(site, detail, ws_prefix=None):
+    if detail.startswith("/"):
+        detail = os.path.normpath(detail)       # e.g. <root>/ws/../ws2/f is not inside <root>/ws
     if site == "file.persist":
         if "/op_store/operations/" in detail:
             return {"e": "op", "id": os.path.basename(detail)[:16]}
